@@ -102,8 +102,12 @@ type PipeCfg struct {
 }
 
 func (c PipeCfg) String() string {
-	return fmt.Sprintf("batch=%d/%dB tick=%v ka=%v cp=%v pipeline=%v txn=%v resume=%v targetDb=%d map=%v buf=%d",
+	s := fmt.Sprintf("batch=%d/%dB tick=%v ka=%v cp=%v pipeline=%v txn=%v resume=%v targetDb=%d map=%v buf=%d",
 		c.BatchCount, c.BatchBytes, c.BatchTicker, c.Keepalive, c.CpTicker, c.Pipeline, c.Txn, c.Resume, c.DBM.TargetDb, c.DBM.TargetDbMap, c.BufSize)
+	if f := c.Filters; f != nil {
+		s += fmt.Sprintf(" filters{cmd=%q db=%v pblack=%q pwhite=%q swhite=%v sblack=%v}", f.CmdBlacklist, f.DbBlacklist, f.PrefixBlack, f.PrefixWhite, f.SlotWhite, f.SlotBlack)
+	}
+	return s
 }
 
 var tickerChoices = []time.Duration{time.Millisecond, 10 * time.Millisecond, 50 * time.Millisecond, 300 * time.Millisecond, time.Second, 3 * time.Second, 30 * time.Second, time.Hour}
